@@ -192,6 +192,12 @@ impl<'a> StatementEvaluator<'a> {
                     if has_excess_data {
                         self.interpreter.output(InterpreterOutput::ExtraIgnored);
                     }
+                    if self.program().peek_next_token() == Some(Token::Else) {
+                        // We're the "then" clause of an IF, but we were resumed as a
+                        // statement of our own once the input arrived, so it's up to
+                        // us to skip the else clause (and anything else on this line).
+                        self.program().discard_remaining_tokens();
+                    }
                     Ok(())
                 }
                 Err(TracedInterpreterError {
